@@ -49,6 +49,7 @@ pub fn space_text(prop: u8) -> &'static str {
         1 | 2 => "size sweep: every queue size 2..=64 and a dense subset up to 600 x 4 priority patterns x {root to below-min, pop, last leaf to above-max, remove root, pop_if rewriting to below-min, extreme ties}",
         11 => "size sweep: every queue size 2..=1100 x 4 priority patterns x push_decrease of root / second level to below-min, push_increase of the last leaf to above-max, ties with the extremes; and push_increase / push_decrease x 9 offered-priority classes x every target position x n <= 6 x 3 priority patterns x both kinds",
         13 => "all call programs of length <= 6 on iter/&q/into_iter/drain/sorted over n <= 4, and all 42 adaptor compositions x arguments 0..=n+2 x 6 iterator kinds x n <= 4, both kinds",
+        16 => "drain / clear on queues with 65 537 ... 4 194 309 elements of capacity behind them (reserved by with_capacity or by reserve) and a handful of elements, in six variants (clear; drain unused, partly used, leaked, fully used; shrink_to_fit and a second drain), each refilled and popped afterwards, both kinds",
         17 => "capacity battery: 7 amounts from 65 537 to 8 388 608 elements x {with_capacity, with_capacity_and_hasher, with_capacity_and_default_hasher, reserve, reserve_exact, try_reserve, try_reserve_exact} x both kinds, each followed by pushes, pops, shrink_to_fit and a second reservation",
         _ => "",
     }
@@ -60,6 +61,47 @@ pub fn small_cases(prop: u8) -> Vec<Case> {
     let full = [ItCall::Next, ItCall::Back, ItCall::Probe];
     let fwd = [ItCall::Next, ItCall::Probe];
     match prop {
+        16 => {
+            // drain / clear on queues with a big capacity behind them (reserved by the constructor or by
+            // reserve, far more than they hold), then refilled: "a drained queue behaves like a fresh one"
+            // must not depend on how much room the queue once had
+            let amounts: [u32; 5] = [65_537, 300_000, 1_048_583, 1 << 21, 4_194_309];
+            for kind in kinds {
+                for (i, &c) in amounts.iter().enumerate() {
+                    for variant in 0..6u8 {
+                        let emptier = match variant {
+                            0 => Op::Clear,
+                            1 => Op::IterProg { which: ItKind::Drain, prog: vec![], end: EndHow::Drop },
+                            2 => Op::IterProg { which: ItKind::Drain, prog: vec![ItCall::Next, ItCall::Back, ItCall::Probe], end: EndHow::Drop },
+                            3 => Op::IterProg { which: ItKind::Drain, prog: vec![ItCall::Next], end: EndHow::Forget },
+                            4 => Op::IterProg { which: ItKind::Drain, prog: vec![ItCall::Next; 12], end: EndHow::Drop },
+                            _ => Op::Clear,
+                        };
+                        let (ctor, first): (CtorKind, Vec<Op>) = if variant % 2 == 0 {
+                            (CtorKind::WithCapacity(c), vec![])
+                        } else {
+                            (CtorKind::New, vec![Op::Reserve { how: if variant == 1 { ResKind::Reserve } else { ResKind::TryReserveExact }, amt: Amount::Small(c) }])
+                        };
+                        let mut ops = first;
+                        ops.push(emptier);
+                        ops.push(Op::Push { t: Target::Id(3), tag: 1, p: PrioSpec::Val(5) });
+                        ops.push(Op::Push { t: Target::Id(4), tag: 1, p: PrioSpec::Val(9) });
+                        ops.push(Op::Push { t: Target::Id(5), tag: 1, p: PrioSpec::Val(1) });
+                        ops.push(Op::Pop { end: End::Max });
+                        ops.push(Op::Pop { end: if kind == Kind::DPQ { End::Min } else { End::Max } });
+                        if variant == 5 {
+                            ops.push(Op::Shrink);
+                            ops.push(Op::IterProg { which: ItKind::Drain, prog: vec![ItCall::Back], end: EndHow::Drop });
+                            ops.push(Op::Push { t: Target::Id(6), tag: 1, p: PrioSpec::Val(2) });
+                            ops.push(Op::Pop { end: End::Max });
+                        }
+                        let mut case = mk(kind, ctor, init(2 + i + variant as usize, (variant % 3) as u8), ops);
+                        case.drain_every = 4;
+                        v.push(case);
+                    }
+                }
+            }
+        }
         17 => {
             // amounts between the sizes random generation affords (< 20 000) and the unsatisfiable ones:
             // 65 537 ... 8 388 608 elements, through every constructor that takes a capacity and every
